@@ -365,6 +365,6 @@ def campaigns(tier):
                  describe="grammar-directed hostile projects"),
         Campaign("corrupted", "hyp", evaluate=eval_text, strategy=corrupted_texts, n=1500 if q else 40000, floor_nontrivial=0.1, post=confirm_timeouts,
                  describe="token-level corruptions of generated projects and the repository fixtures"),
-        Campaign("atheris", "custom", run=run_atheris, evaluate=eval_text, n=16000 if q else 1600000, shards=8 if q else 16,
+        Campaign("atheris", "custom", run=run_atheris, evaluate=eval_text, n=16000 if q else 480000, shards=8 if q else 16,
                  describe="coverage-guided fuzzing of parse+schedule (libFuzzer via atheris), fixture-seeded and empty corpus"),
     ]
